@@ -379,6 +379,9 @@ func (tr *Tracker) OnAllocate(t *pod_info.PodInfo) {
 		}
 		if ev, ok := tr.lastEvict[key]; ok && ev.NodeName == t.NodeName && t.IsSharedGPUAllocation() && len(t.GPUGroups) > 0 && !sameGroups(ev.GPUGroups, t.GPUGroups) {
 			tr.ghosts[key] = ev
+		} else if re, ok := tr.reEvict[key]; ok && re.NodeName != t.NodeName && tr.ghosts[key] != nil && tr.ghosts[key].NodeName == re.NodeName {
+			// the evicted NOMINATION stays in the old node's pod map as a releasing pod and the original
+			// instance stays charged next to it: the ghost stays (ghostsOn de-duplicates against the pod map)
 		} else {
 			delete(tr.ghosts, key) // nominated in place (same devices) or elsewhere: a single instance
 		}
@@ -458,6 +461,12 @@ func Accounting(ssn *framework.Session, where string, tr *Tracker) []Problem {
 		}
 		ghosts := tr.ghostsOn(ni)
 		instances = append(instances, ghosts...)
+		for _, g := range ghosts {
+			if cur, ok := ni.PodInfos[pod_info.PodKey(g.Pod)]; ok && cur.Status == pod_status.Releasing && !sameGroups(cur.GPUGroups, g.GPUGroups) {
+				// the pod map's releasing instance is an evicted nomination (the original one is the ghost)
+				add("evicted-nomination-charged-as-releasing", "node %s: %s was evicted, nominated onto another device, and that NOMINATION was evicted again by a later statement of the same cycle; the node charges the evicted nomination (groups %v) as a releasing pod next to the original instance (groups %v)", name, g.Name, cur.GPUGroups, g.GPUGroups)
+			}
+		}
 		if ph := tr.phantomsOn(ni); len(ph) > 0 {
 			// reported under its own key; the instance is then counted the way the scheduler counts it, so
 			// that every OTHER deviation on this node is still seen
